@@ -1,5 +1,5 @@
 (* C07 — `@typstyle off` reproduces the next node verbatim: attribute pass + the four entry points. *)
-From TV Require Import Conv Format Attr AttrProofs ConvProofs MathProofs.
+From TV Require Import Conv Format Attr AttrProofs ConvProofs MathProofs Format Render Post StripLit Survive.
 
 Section Full.
   Variable swidth : str -> N.
@@ -86,3 +86,16 @@ Example C07_example :
   exists n, format_source (fun s => N.of_nat (length s)) CliGen.cfg_default ex_off =
             FOk ([47;42;32;64;116;121;112;115;116;121;108;101;32;111;102;102;32;42;47;32;35] ++ [102;40;32;49;32;41;10]) n.
 Proof. eexists. vm_compute. reflexivity. Qed.
+
+(* the protected node is one text atom (theorems above); such an atom, once emitted, reaches the output with nothing
+   changed but the blanks before its own line feeds -- the property's "apart from blanks at line ends" *)
+Theorem C07_verbatim_atom_reaches_output :
+  forall swidth cfg t out n,
+    format_source swidth cfg t = FOk out n ->
+    exists d es,
+      convert_root swidth cfg t = Ok (d, n) /\ render_events (max_width cfg) d = Some es /\
+      forall v, In (EText v) es -> ends_solid v ->
+        (exists pre post, out = pre ++ trim_line_ends v ++ post) /\
+        (clean v -> exists pre post, out = pre ++ v ++ post).
+Proof. exact emitted_text_survives. Qed.
+Print Assumptions C07_verbatim_atom_reaches_output.
